@@ -574,7 +574,9 @@ func (s *service) verifyBlock(b dbft.Block[util.Uint256]) bool {
 		var err error
 
 		fee += tx.SystemFee
-		if mainPool.ContainsKey(tx.Hash()) {
+		if pool.HasConflicts(tx, s.Chain) {
+			err = errors.New("conflicts with another transaction of the block")
+		} else if mainPool.ContainsKey(tx.Hash()) {
 			err = pool.Add(tx, s.Chain)
 			if err == nil {
 				continue
